@@ -228,3 +228,129 @@ pub fn run_gz_suite(em: &mut Emit, thorough: bool) {
     }
     em.note("sched-gz", &format!("schedules={}", total));
 }
+
+// ---------------------------------------------------------------------------------------
+// Free-running threads (no controlled scheduler): the interleavings the scheduler cannot produce
+// are those in which one thread runs while the other is INSIDE a critical section; code that
+// bypasses the lock (try_lock, an atomic fast path) only misbehaves there.
+
+struct ParkWaker(std::thread::Thread);
+
+impl std::task::Wake for ParkWaker {
+    fn wake(self: std::sync::Arc<Self>) {
+        self.0.unpark();
+    }
+}
+
+/// One trial: a producer thread runs `prog` (writes of 1-3 bytes, flushes, then a drop or an
+/// abort) on a body with a tiny chunk size while this thread consumes it, parking on `Pending` with
+/// a waker that unparks it. Every poll presents a fresh waker. The consumer must observe the end (or
+/// the error) within 5 s of the producer having finished, and on a clean end must have received
+/// exactly what was accepted.
+fn free_running_trial(t: usize, gz: bool) -> Result<(), String> {
+    use bytes::Bytes;
+    use http_body::Body as _;
+    use std::io::Write as _;
+    let mut rb = http::Request::get("/");
+    if gz {
+        rb = rb.header("accept-encoding", "gzip");
+    }
+    let req = rb.body(()).unwrap();
+    let (resp, w) = http_serve::streaming_body(&req).with_chunk_size(1 + t % 3).with_gzip_level(1).build::<Bytes, BoxError>();
+    let mut w = w.unwrap();
+    let abort = t % 5 == 4;
+    let nops = 3 + t % 17;
+    let done = std::sync::Arc::new(std::sync::atomic::AtomicBool::new(false));
+    let d2 = done.clone();
+    let producer = std::thread::spawn(move || -> Vec<u8> {
+        let mut accepted = vec![];
+        let mut x = t as u8;
+        for i in 0..nops {
+            x = x.wrapping_mul(31).wrapping_add(11);
+            let bs = [x, x ^ 0x5a, x.wrapping_add(1)];
+            let bs = &bs[..1 + (i + t) % 3];
+            if w.write_all(bs).is_ok() {
+                accepted.extend_from_slice(bs);
+            }
+            if (i + t) % 2 == 0 {
+                let _ = w.flush();
+            }
+            if (i * 7 + t) % 5 == 0 {
+                std::thread::yield_now();
+            }
+        }
+        if abort {
+            w.abort(Box::new(std::io::Error::other("aborted by harness")));
+        }
+        drop(w);
+        d2.store(true, std::sync::atomic::Ordering::SeqCst);
+        accepted
+    });
+    let mut body = Box::pin(resp.into_body());
+    let mut delivered = vec![];
+    let mut terminal: Option<&'static str> = None;
+    let mut waited_after_done = 0;
+    while terminal.is_none() {
+        let waker = std::task::Waker::from(std::sync::Arc::new(ParkWaker(std::thread::current())));
+        let mut cx = std::task::Context::from_waker(&waker);
+        match body.as_mut().poll_frame(&mut cx) {
+            std::task::Poll::Ready(Some(Ok(f))) => delivered.extend_from_slice(&f.into_data().unwrap()),
+            std::task::Poll::Ready(Some(Err(_))) => terminal = Some("ERR"),
+            std::task::Poll::Ready(None) => terminal = Some("END"),
+            std::task::Poll::Pending => {
+                let was_done = done.load(std::sync::atomic::Ordering::SeqCst);
+                std::thread::park_timeout(std::time::Duration::from_millis(if was_done { 1000 } else { 50 }));
+                if was_done {
+                    waited_after_done += 1;
+                    if waited_after_done > 5 {
+                        let _ = producer.join();
+                        return Err(format!("trial {} (gzip={}, abort={}): the producer finished, the consumer is parked and nobody wakes it", t, gz, abort));
+                    }
+                }
+            }
+        }
+    }
+    let accepted = producer.join().map_err(|_| format!("trial {}: producer panicked", t))?;
+    match (terminal, abort) {
+        (Some("END"), false) => {
+            let got = if gz {
+                let mut d = flate2::read::GzDecoder::new(&delivered[..]);
+                let mut out = vec![];
+                use std::io::Read as _;
+                d.read_to_end(&mut out).map_err(|e| format!("trial {}: gzip body does not decode: {}", t, e))?;
+                out
+            } else {
+                delivered
+            };
+            if got != accepted {
+                return Err(format!("trial {} (gzip={}): clean end after {} bytes, {} were accepted", t, gz, got.len(), accepted.len()));
+            }
+            Ok(())
+        }
+        (Some("END"), true) => Err(format!("trial {}: clean end although the producer aborted", t)),
+        (Some("ERR"), false) => Err(format!("trial {}: error without an abort", t)),
+        _ => Ok(()),
+    }
+}
+
+pub fn free_running(em: &mut Emit, thorough: bool) {
+    let (shard_i, _) = shard();
+    if shard_i != 0 {
+        return;
+    }
+    let trials = if thorough { 4000 } else { 400 };
+    for gz in [false, true] {
+        let mut res = Ok(());
+        for t in 0..trials {
+            res = free_running_trial(t, gz);
+            if res.is_err() {
+                break;
+            }
+        }
+        em.pred_only(
+            &format!("{} trials with free-running producer and consumer threads (gzip={})", trials, gz),
+            &match res { Ok(()) => "ok".to_string(), Err(e) => format!("FAIL:{}", e) },
+            "free-running",
+        );
+    }
+}
